@@ -1,15 +1,19 @@
 #!/bin/bash
-# Re-runs every kept seeded change against the current checker: applies the patch in the scratch worktree /tmp/mt
-# (created with: git -C /repo worktree add --detach /tmp/mt main), runs the property's check on that tree and reports
-# DETECTED / MISSED / NOAPPLY per seed. Does not run the demonstrations (tools/confirm_seed.sh does).
-cd /tmp/mt || exit 9
+# Re-runs every kept seeded change against the current checker: applies the patch in a scratch worktree
+# (default /tmp/mt, created with: git -C /repo worktree add --detach /tmp/mt main), runs the property's check on that
+# tree and reports DETECTED / MISSED / NOAPPLY per seed. Does not run the demonstrations (tools/confirm_seed.sh does).
+# Sharding for parallel runs: WT=/tmp/mt2 SHARD=1 NSHARDS=4 tools/reseed_all.sh  (shard k takes every n-th seed).
+WT=${WT:-/tmp/mt}; SHARD=${SHARD:-0}; NSHARDS=${NSHARDS:-1}; BIN=${BIN:-/verif/bin/osmolint}
+cd $WT || exit 9
+mkdir -p $WT-verif; cp /verif/known_findings.json $WT-verif/
 git checkout -q -- . ; git clean -fdq . ; git checkout -q --detach main
-tot=0; det=0
+tot=0; det=0; i=0
 for d in /verif/seeded/*/*/; do
+  i=$((i+1)); [ $((i % NSHARDS)) -eq $SHARD ] || continue
   prop=$(basename $(dirname $d)); name=$(basename $d)
   git checkout -q -- .
   if ! git apply --whitespace=nowarn $d/patch.diff 2>/dev/null; then echo "$prop/$name NOAPPLY"; tot=$((tot+1)); continue; fi
-  res=$(VERIF_REPO=/tmp/mt VERIF_DIR=/tmp/mt-verif /verif/bin/osmolint -property $prop 2>&1)
+  res=$(VERIF_REPO=$WT VERIF_DIR=$WT-verif $BIN -property $prop 2>&1)
   tot=$((tot+1))
   if echo "$res" | grep -q "^VIOLATION"; then det=$((det+1)); echo "$prop/$name DETECTED $(echo "$res" | grep -c '^VIOLATION')"; else echo "$prop/$name MISSED"; fi
 done
